@@ -1,12 +1,1198 @@
-/- C04 model — placeholder until the property is built -/
+/-
+  C04 — evaluation depends only on program text and variable state; values are immutable.
+
+  Two machines over one closed statement grammar.
+
+  * `Interp` (the implementation model): the interpreter as a state machine
+    ⟨frames (variables), heap, dictionary heap, parse-time module, parse cache, compiled
+    cache, node memo⟩.  Arrays are heap cells; a cell is either a base array or a *view* of
+    an older cell (numpy slice / flip / row).  Every verb is classified by `monadSem` /
+    `dyadSem` as  fresh (`Sem.val`) | view-of-argument (`Sem.view`) ; dictionaries are
+    updated in place in the dictionary heap.
+  * `Ref` (the specification): no cache of any kind, arrays by value, every statement is
+    parsed from scratch and interpreted (never compiled).
+
+  Mirrors (klongpy):
+    KlongContext.__getitem__ / __setitem__ / __iter__      -> `lookup` / `assign` / `snapshot`
+    KlongInterpreter.__call__  (_parse_cache under (text, module), _compiled_cache under the
+      same key, cleared by __setitem__)                    -> `Interp.step`
+    KlongInterpreter.eval (x._compiled memo on shared nodes, compiled call with fallback,
+      right operand first, `::`, KGSym self-binding)       -> `Interp.evalWith`
+    KlongInterpreter._eval_fn (push {x: arg}, body, pop)   -> `call` case
+    compiler.compile_expr / compiled_args / numpy backend  -> `compile` / `admissible` / `pyEval`
+    parser.read_sym (module qualification), _factor's parse_module side effect
+                                                           -> `parseQ` (the theorems hold for ANY `parse`)
+    sys_fn.eval_sys_module + start_module/stop_module      -> `runModule`
+    dyads.eval_dyad_amend (np.array clone, np.put), _e_dyad_amend_in_depth, eval_dyad_take,
+      eval_dyad_drop, eval_dyad_at_index, eval_dyad_join, eval_dyad_add/…,
+      monads.eval_monad_reverse / eval_monad_size, adverb over/scan on operators
+                                                           -> `dyadSem` / `monadSem`
+    parser.copy_lambda (dictionary literal deep-copied at each evaluation) -> `dlit` case
+
+  `Cfg` carries the knobs that distinguish the pinned tree, the repaired tree and three
+  hand-made mutants; the theorems are about `Cfg.repaired` (and every `Cfg.Good`), the
+  negations are witnessed by `decide` on the other settings.
+-/
 import Klong.Model.Wire
 namespace Klong.C04
+open Klong.Wire
+
+/-! ## names and values -/
+
+/-- a symbol: base name (an index into the harness's name table) and the module qualifier
+    that `read_sym` appended ("a`m1") -/
+structure QName where
+  base : Nat
+  mod : Option Nat := none
+deriving DecidableEq, Repr
+
+/-- the reserved function argument `x` is never qualified -/
+def xBase : Nat := 7
+def xName : QName := ⟨xBase, none⟩
+
+/-- data values of the modelled universe (flat: no nested inductive, so `decide` works) -/
+inductive V where
+  | int (n : Int)
+  | chr (c : Nat)
+  | str (cs : List Nat)
+  | sym (q : QName)
+  | ints (xs : List Int)            -- rank-1 integer array
+  | mat (rows : List (List Int))    -- rank-2 integer array
+  | undef
+deriving DecidableEq, Repr
+
+/-- what a numpy view selects from its base -/
+inductive Sel where
+  | slice (lo hi : Nat)    -- b[lo:hi] on axis 0
+  | rev                    -- flip on axis 0
+  | row (i : Nat)          -- a[i] of a rank-2 array
+deriving DecidableEq, Repr
+
+def applySel : Sel → V → V
+  | .slice lo hi, .ints xs => .ints ((xs.take hi).drop lo)
+  | .slice lo hi, .mat rows => .mat ((rows.take hi).drop lo)
+  | .rev, .ints xs => .ints xs.reverse
+  | .rev, .mat rows => .mat rows.reverse
+  | .row i, .mat rows => .ints (rows.getD i [])
+  | _, v => v
+
+inductive AOp where
+  | plus | times | minus | max | min
+deriving DecidableEq, Repr
+
+inductive MOp where
+  | rev | size | over (o : AOp) | scan (o : AOp)
+deriving DecidableEq, Repr
+
+inductive DOp where
+  | take | drop | index | amend | amendD | arith (o : AOp) | join | find
+deriving DecidableEq, Repr
+
+/-! ## by-value meaning of the verbs, with the fresh / view classification -/
+
+inductive Side where
+  | l | r
+deriving DecidableEq, Repr
+
+/-- result of a verb on data operands -/
+inductive Sem where
+  | err                          -- the code raises
+  | unm                          -- outside the modelled domain
+  | val (v : V)                  -- a fresh object
+  | view (s : Side) (sel : Sel)  -- a numpy view of the array operand on side `s`
+deriving DecidableEq, Repr
+
+def rect (rows : List (List Int)) : Bool :=
+  match rows with
+  | [] => false
+  | r :: rs => !r.isEmpty && rs.all (fun q => q.length == r.length)
+
+def cols (rows : List (List Int)) : Nat := (rows.headD []).length
+
+def aop : AOp → Int → Int → Int
+  | .plus, a, b => a + b
+  | .times, a, b => a * b
+  | .minus, a, b => a - b
+  | .max, a, b => if a ≤ b then b else a
+  | .min, a, b => if a ≤ b then a else b
+
+/-- cyclic take (`eval_dyad_take`): `n ≥ 0` from the front, `n < 0` from the end -/
+def takeCyc {α : Type} (d : α) (n : Int) (xs : List α) : List α :=
+  let len := xs.length
+  let k := n.natAbs
+  if 0 ≤ n then (List.range k).map (fun i => xs.getD (i % len) d)
+  else (List.range k).map (fun i => xs.getD ((len - k % len + i) % len) d)
+
+def takeSlice (n : Int) (len : Nat) : Sel :=
+  if 0 ≤ n then .slice 0 n.natAbs else .slice (len - n.natAbs) len
+
+def dropSlice (n : Int) (len : Nat) : Sel :=
+  if 0 ≤ n then .slice (min n.natAbs len) len else .slice 0 (len - min n.natAbs len)
+
+def dropList {α : Type} (n : Int) (xs : List α) : List α :=
+  if 0 ≤ n then xs.drop n.natAbs else xs.take (xs.length - n.natAbs)
+
+/-- numpy broadcasting of two rank-1 operands -/
+def zipArith (f : Int → Int → Int) (xs ys : List Int) : Option (List Int) :=
+  if xs.length = ys.length then some (List.zipWith f xs ys)
+  else if xs.length = 1 then some (ys.map (f (xs.headD 0)))
+  else if ys.length = 1 then some (xs.map (fun x => f x (ys.headD 0)))
+  else none
+
+def sameShape (a b : List (List Int)) : Bool :=
+  a.length == b.length && cols a == cols b
+
+/-- atomic arithmetic on admissible operands (what both the verbs and the generated numpy
+    code compute on plain integers and integer arrays) -/
+def arith (o : AOp) (a b : V) : Sem :=
+  match o with
+  | .max | .min => .unm
+  | _ =>
+  match a, b with
+  | .int x, .int y => .val (.int (aop o x y))
+  | .int x, .ints ys => if ys.isEmpty then .unm else .val (.ints (ys.map (aop o x)))
+  | .ints xs, .int y => if xs.isEmpty then .unm else .val (.ints (xs.map (fun x => aop o x y)))
+  | .ints xs, .ints ys =>
+    if xs.isEmpty || ys.isEmpty then .unm
+    else match zipArith (aop o) xs ys with
+      | some r => .val (.ints r)
+      | none => .err
+  | .int x, .mat ys => if rect ys then .val (.mat (ys.map (fun r => r.map (aop o x)))) else .unm
+  | .mat xs, .int y => if rect xs then .val (.mat (xs.map (fun r => r.map (fun x => aop o x y)))) else .unm
+  | .mat xs, .mat ys =>
+    if rect xs && rect ys && sameShape xs ys then
+      .val (.mat (List.zipWith (fun r q => List.zipWith (aop o) r q) xs ys))
+    else .unm
+  | .str cs, .int _ => if cs.isEmpty then .unm else .err
+  | .int _, .str cs => if cs.isEmpty then .unm else .err
+  | _, _ => .unm
+
+def foldOp (o : AOp) : List Int → Int
+  | [] => 0
+  | x :: xs => xs.foldl (aop o) x
+
+def scanOp (o : AOp) : List Int → List Int
+  | [] => []
+  | x :: xs => (xs.foldl (fun (acc : List Int × Int) y => let s := aop o acc.2 y; (acc.1 ++ [s], s)) ([x], x)).1
+
+def colFold (o : AOp) : List (List Int) → List Int
+  | [] => []
+  | r :: rs => rs.foldl (fun acc q => List.zipWith (aop o) acc q) r
+
+def overSem (o : AOp) (a : V) : Sem :=
+  match o with
+  | .minus => .unm
+  | _ =>
+  match a with
+  | .int n => .val (.int n)
+  | .ints xs => if xs.isEmpty then .unm else .val (.int (foldOp o xs))
+  | .mat rows => if rect rows then .val (.ints (colFold o rows)) else .unm
+  | .str cs => if cs.isEmpty then .unm else .err
+  | _ => .unm
+
+def scanSem (o : AOp) (a : V) : Sem :=
+  match o with
+  | .plus | .times =>
+    (match a with
+     | .ints xs => if xs.isEmpty then .unm else .val (.ints (scanOp o xs))
+     | .str cs => if cs.isEmpty then .unm else .err
+     | _ => .unm)
+  | _ => .unm
+
+def monadSem (op : MOp) (a : V) : Sem :=
+  match op with
+  | .rev =>
+    (match a with
+     | .int _ => .err
+     | .str cs => if cs.isEmpty then .unm else .val (.str cs.reverse)
+     | .ints xs => if xs.isEmpty then .unm else .view .l .rev
+     | .mat rows => if rect rows then .view .l .rev else .unm
+     | _ => .unm)
+  | .size =>
+    (match a with
+     | .int n => .val (.int n.natAbs)
+     | .str cs => .val (.int cs.length)
+     | .ints xs => .val (.int xs.length)
+     | .mat rows => if rect rows then .val (.int rows.length) else .unm
+     | _ => .unm)
+  | .over o => overSem o a
+  | .scan o => scanSem o a
+
+def allLt (idxs : List Int) (n : Nat) : Bool := idxs.all (fun i => decide (i < n))
+def anyNeg (idxs : List Int) : Bool := idxs.any (fun i => decide (i < 0))
+
+def putMany (xs : List Int) (idxs : List Int) (v : Int) : List Int :=
+  idxs.foldl (fun acc i => acc.set i.natAbs v) xs
+
+def putFlat (rows : List (List Int)) (idxs : List Int) (v : Int) : List (List Int) :=
+  let c := cols rows
+  idxs.foldl (fun acc i => acc.set (i.natAbs / c) ((acc.getD (i.natAbs / c) []).set (i.natAbs % c) v)) rows
+
+def indexSem (a b : V) : Sem :=
+  match b with
+  | .int i =>
+    if i < 0 then .unm else
+    (match a with
+     | .int _ => .err
+     | .str cs => if cs.isEmpty then .unm else if i.natAbs < cs.length then .val (.chr (cs.getD i.natAbs 0)) else .err
+     | .ints xs => if xs.isEmpty then .unm else if i.natAbs < xs.length then .val (.int (xs.getD i.natAbs 0)) else .err
+     | .mat rows => if !rect rows then .unm else if i.natAbs < rows.length then .view .l (.row i.natAbs) else .err
+     | _ => .unm)
+  | .ints idxs =>
+    if idxs.isEmpty || anyNeg idxs then .unm else
+    (match a with
+     | .int _ => .err
+     | .str cs => if cs.isEmpty then .unm else
+         if allLt idxs cs.length then .val (.str (idxs.map (fun i => cs.getD i.natAbs 0))) else .err
+     | .ints xs => if xs.isEmpty then .unm else
+         if allLt idxs xs.length then .val (.ints (idxs.map (fun i => xs.getD i.natAbs 0))) else .err
+     | .mat rows => if !rect rows then .unm else
+         if allLt idxs rows.length then .val (.mat (idxs.map (fun i => rows.getD i.natAbs []))) else .err
+     | _ => .unm)
+  | _ => .unm
+
+/-- `a:=b` with `b = v,i…` already joined into a flat integer list -/
+def amendSem (a b : V) : Sem :=
+  match b with
+  | .ints (v :: i0 :: irest) =>
+    let idxs := i0 :: irest
+    if anyNeg idxs then .unm else
+    (match a with
+     | .int _ => .err
+     | .str cs => if cs.isEmpty then .unm else .err
+     | .ints xs => if xs.isEmpty then .unm else
+         if allLt idxs xs.length then .val (.ints (putMany xs idxs v)) else .err
+     | .mat rows => if !rect rows then .unm else
+         if allLt idxs (rows.length * cols rows) then .val (.mat (putFlat rows idxs v)) else .err
+     | _ => .unm)
+  | _ => .unm
+
+def amendDSem (a b : V) : Sem :=
+  match b with
+  | .ints [v, i] =>
+    if i < 0 then .unm else
+    (match a with
+     | .int _ => .err
+     | .str cs => if cs.isEmpty then .unm else .err
+     | .ints xs => if xs.isEmpty then .unm else
+         if i.natAbs < xs.length then .val (.ints (xs.set i.natAbs v)) else .err
+     | .mat rows => if !rect rows then .unm else
+         if i.natAbs < rows.length then .val (.mat (rows.set i.natAbs (List.replicate (cols rows) v))) else .err
+     | _ => .unm)
+  | .ints [v, i, j] =>
+    if i < 0 || j < 0 then .unm else
+    (match a with
+     | .int _ => .err
+     | .str cs => if cs.isEmpty then .unm else .err
+     | .ints xs => if xs.isEmpty then .unm else .err
+     | .mat rows => if !rect rows then .unm else
+         if i.natAbs < rows.length && j.natAbs < cols rows then
+           .val (.mat (rows.set i.natAbs ((rows.getD i.natAbs []).set j.natAbs v)))
+         else .err
+     | _ => .unm)
+  | _ => .unm
+
+def joinSem (a b : V) : Sem :=
+  match a, b with
+  | .int x, .int y => .val (.ints [x, y])
+  | .ints xs, .int y => if xs.isEmpty then .unm else .val (.ints (xs ++ [y]))
+  | .int x, .ints ys => if ys.isEmpty then .unm else .val (.ints (x :: ys))
+  | .ints xs, .ints ys => if xs.isEmpty || ys.isEmpty then .unm else .val (.ints (xs ++ ys))
+  | .str xs, .str ys => .val (.str (xs ++ ys))
+  | .mat xs, .mat ys => if rect xs && rect ys && cols xs == cols ys then .val (.mat (xs ++ ys)) else .unm
+  | _, _ => .unm
+
+def dyadSem (op : DOp) (a b : V) : Sem :=
+  match op with
+  | .take =>
+    (match a with
+     | .int n =>
+       (match b with
+        | .int _ => .err
+        | .str cs => if cs.isEmpty then .unm else .val (.str (takeCyc 0 n cs))
+        | .ints xs => if xs.isEmpty then .unm else
+            if n.natAbs ≤ xs.length then .view .r (takeSlice n xs.length) else .val (.ints (takeCyc 0 n xs))
+        | .mat rows => if !rect rows then .unm else
+            if n.natAbs ≤ rows.length then .view .r (takeSlice n rows.length) else .unm
+        | _ => .unm)
+     | _ => .unm)
+  | .drop =>
+    (match a with
+     | .int n =>
+       (match b with
+        | .int _ => .err
+        | .str cs => if cs.isEmpty then .unm else .val (.str (dropList n cs))
+        | .ints xs => if xs.isEmpty then .unm else .view .r (dropSlice n xs.length)
+        | .mat rows => if !rect rows then .unm else .view .r (dropSlice n rows.length)
+        | _ => .unm)
+     | _ => .unm)
+  | .index => indexSem a b
+  | .amend => amendSem a b
+  | .amendD => amendDSem a b
+  | .arith o => arith o a b
+  | .join => joinSem a b
+  | .find => .unm          -- only dictionaries (handled by the evaluators)
+
+/-! ## syntax -/
+
+/-- expressions; `L` is the type of literals: `V` in program text and in `Ref`, `HLit` in the
+    trees the heap machine holds (array literals live in heap cells created at parse time) -/
+inductive Expr (L : Type) where
+  | lit (l : L)
+  | dlit (kvs : List (Int × Int))              -- :{[k v] …}
+  | var (q : QName)
+  | fn (body : Expr L)                         -- {body}
+  | assign (q : QName) (e : Expr L)            -- q::e
+  | seq (a b : Expr L)                         -- a;b inside a function
+  | op1 (o : MOp) (e : Expr L)
+  | op2 (o : DOp) (a b : Expr L)
+  | call (f : QName) (arg : Expr L)            -- f(arg)
+deriving DecidableEq, Repr
+
+inductive Stmt (L : Type) where
+  | expr (e : Expr L)
+  | module (arg : Option QName)                -- .module(:m) / .module(0)
+deriving DecidableEq, Repr
+
+abbrev Text := Stmt V
+abbrev Parse := Text → Option Nat → Text × Option Nat
+
+/-- `read_sym`: inside module `m` every symbol except `x` is read as "s`m" -/
+def qual (m : Option Nat) (q : QName) : QName :=
+  if q.base = xBase then q else
+  match m with
+  | some k => ⟨q.base, some k⟩
+  | none => q
+
+def qualE (m : Option Nat) : Expr V → Expr V
+  | .lit l => .lit l
+  | .dlit kvs => .dlit kvs
+  | .var q => .var (qual m q)
+  | .fn b => .fn (qualE m b)
+  | .assign q e => .assign (qual m q) (qualE m e)
+  | .seq a b => .seq (qualE m a) (qualE m b)
+  | .op1 o e => .op1 o (qualE m e)
+  | .op2 o a b => .op2 o (qualE m a) (qualE m b)
+  | .call f a => .call (qual m f) (qualE m a)
+
+/-- the concrete parser of the driver: qualification, and the `parse_module` side effect -/
+def parseQ : Parse
+  | .expr e, m => (.expr (qualE m e), m)
+  | .module (some q), m => (.module (some (qual m q)), some q.base)
+  | .module none, _ => (.module none, none)
+
+/-! ## the compiler (`compile_expr`, numpy backend) -/
+
+inductive CExpr where
+  | lit (n : Int)
+  | var (q : QName)
+  | bin (o : AOp) (a b : CExpr)
+  | red (o : AOp) (a : CExpr)
+  | scn (o : AOp) (a : CExpr)
+deriving DecidableEq, Repr
+
+def CExpr.vars : CExpr → List QName
+  | .lit _ => []
+  | .var q => [q]
+  | .bin _ a b => a.vars ++ b.vars
+  | .red _ a => a.vars
+  | .scn _ a => a.vars
+
+def arithCompilable : AOp → Bool
+  | .plus | .times | .minus => true
+  | _ => false
+
+def redCompilable : AOp → Bool
+  | .plus | .times | .max | .min => true
+  | _ => false
+
+def scanCompilable : AOp → Bool
+  | .plus | .times => true
+  | _ => false
+
+/-- `_ast_to_ir` with `check_operands=False`: depends on the expression only -/
+def toIR {L : Type} (litInt : L → Option Int) : Expr L → Option CExpr
+  | .lit l => (litInt l).map .lit
+  | .var q => some (.var q)
+  | .op2 (.arith o) a b =>
+    if arithCompilable o then
+      match toIR litInt a, toIR litInt b with
+      | some x, some y => some (.bin o x y)
+      | _, _ => none
+    else none
+  | .op1 (.over o) a => if redCompilable o then (toIR litInt a).map (.red o) else none
+  | .op1 (.scan o) a => if scanCompilable o then (toIR litInt a).map (.scn o) else none
+  | _ => none
+
+/-- `compile_expr`: no variable reference → "pure constant, not worth compiling" -/
+def compileWith {L : Type} (litInt : L → Option Int) (e : Expr L) : Option CExpr :=
+  match toIR litInt e with
+  | some c => if c.vars.isEmpty then none else some c
+  | none => none
+
+/-- operand kinds for which the generated code is valid (`_admissible`) -/
+def admissible : V → Bool
+  | .int _ => true
+  | .ints _ => true
+  | .mat _ => true
+  | _ => false
+
+/-- Python operators on whatever the variables hold: on admissible operands the same
+    arithmetic as the verbs; on strings Python's `str*int` and `str+str` -/
+def pyArith (o : AOp) (a b : V) : Sem :=
+  match o, a, b with
+  | .times, .str cs, .int n => .val (.str ((List.replicate n.toNat cs).flatten))
+  | .times, .int n, .str cs => .val (.str ((List.replicate n.toNat cs).flatten))
+  | .plus, .str xs, .str ys => .val (.str (xs ++ ys))
+  | _, _, _ => arith o a b
+
+/-- run generated code; `none`: it raised (the caller falls back to the interpreter) or the
+    operands are outside the modelled domain (the interpreter then says so) -/
+def pyEval (env : QName → Option V) : CExpr → Option V
+  | .lit n => some (.int n)
+  | .var q => env q
+  | .bin o a b =>
+    match pyEval env a, pyEval env b with
+    | some x, some y => (match pyArith o x y with | .val v => some v | _ => none)
+    | _, _ => none
+  | .red o a =>
+    match pyEval env a with
+    | some x => if admissible x then (match overSem o x with | .val v => some v | _ => none) else none
+    | none => none
+  | .scn o a =>
+    match pyEval env a with
+    | some x => if admissible x then (match scanSem o x with | .val v => some v | _ => none) else none
+    | none => none
+
+def varsAdmissible (env : QName → Option V) (c : CExpr) : Bool :=
+  c.vars.all (fun q => match env q with | some v => admissible v | none => false)
+
+/-! ## configuration: pinned tree, repaired tree, mutants -/
+
+structure Cfg where
+  caches : Bool          -- parse cache, compiled cache and node memo in use
+  keyModule : Bool       -- parse/compiled cache keyed by (text, module)   [false: by text only]
+  replayModule : Bool    -- a parse-cache hit restores the module the parse ended in
+  guardArgs : Bool       -- operand kinds checked at every compiled call (else once, at compile time)
+  clearOnAssign : Bool   -- `__setitem__` clears the compiled cache
+  amendInPlace : Bool    -- mutant: Amend writes into its argument (no `np.array(a)` clone)
+deriving DecidableEq, Repr
+
+def Cfg.repaired : Cfg := ⟨true, true, true, true, true, false⟩
+/-- the tree as pinned: cached parse skips `parse_module`; compiled code trusted for ever -/
+def Cfg.pinned : Cfg := ⟨true, true, false, false, true, false⟩
+/-- a fresh interpreter per statement: nothing is ever found in a cache -/
+def Cfg.noCache : Cfg := ⟨false, true, false, false, true, false⟩
+
+/-- the settings for which the theorems hold -/
+def Cfg.Good (c : Cfg) : Prop :=
+  c.amendInPlace = false ∧ (c.caches = false ∨ (c.keyModule = true ∧ c.replayModule = true ∧ c.guardArgs = true))
+
+instance (c : Cfg) : Decidable c.Good := by unfold Cfg.Good; infer_instance
+
+/-! ## variable frames (`KlongContext`) — generic in what a binding holds -/
+
+structure Frame (β : Type) where
+  mod : Option QName            -- `some name`: a `KGModule` pushed by `.module(name)`
+  binds : List (QName × β)      -- insertion order, as a Python dict
+deriving Repr
+
+def bindGet {β : Type} : List (QName × β) → QName → Option β
+  | [], _ => none
+  | (q, v) :: r, k => if q = k then some v else bindGet r k
+
+/-- update in place, or append (Python dict assignment) -/
+def bindSet {β : Type} : List (QName × β) → QName → β → List (QName × β)
+  | [], k, v => [(k, v)]
+  | (q, w) :: r, k, v => if q = k then (q, v) :: r else (q, w) :: bindSet r k v
+
+/-- first key of the form "k`…" (the unqualified fallback inside a `KGModule`) -/
+def firstQualified {β : Type} (k : Nat) : List (QName × β) → Option β
+  | [] => none
+  | (q, v) :: r => if q.base = k ∧ q.mod.isSome then some v else firstQualified k r
+
+/-- `KlongContext.__getitem__` -/
+def lookup {β : Type} : List (Frame β) → QName → Option β
+  | [], _ => none
+  | f :: fs, k =>
+    match bindGet f.binds k with
+    | some v => some v
+    | none =>
+      match f.mod with
+      | none => lookup fs k
+      | some name =>
+        match k.mod with
+        | some m => if (⟨m, none⟩ : QName) = name then lookup fs ⟨k.base, none⟩ else lookup fs k
+        | none =>
+          match firstQualified k.base f.binds with
+          | some v => some v
+          | none => lookup fs k
+
+/-- first frame that has the key gets the value -/
+def assignExisting {β : Type} : List (Frame β) → QName → β → Option (List (Frame β))
+  | [], _, _ => none
+  | f :: fs, k, v =>
+    match bindGet f.binds k with
+    | some _ => some ({ f with binds := bindSet f.binds k v } :: fs)
+    | none => (assignExisting fs k v).map (f :: ·)
+
+/-- `KlongContext.__setitem__` (strict mode 0): existing binding anywhere, else the top frame -/
+def assign {β : Type} (fs : List (Frame β)) (k : QName) (v : β) : List (Frame β) :=
+  match assignExisting fs k v with
+  | some r => r
+  | none =>
+    match fs with
+    | [] => [⟨none, [(k, v)]⟩]
+    | f :: rest => { f with binds := f.binds ++ [(k, v)] } :: rest
+
+def mapFrames {β γ : Type} (g : β → γ) (fs : List (Frame β)) : List (Frame γ) :=
+  fs.map (fun f => ⟨f.mod, f.binds.map (fun p => (p.1, g p.2))⟩)
+
+inductive Res (β : Type) where
+  | ok (v : β)
+  | err
+  | unm
+deriving Repr
+
+/-! ## `Ref`: no cache, arrays by value -/
+
+inductive RV where
+  | val (v : V)
+  | dict (r : Nat)
+  | fn (body : Expr V)
+deriving DecidableEq, Repr
+
+abbrev DHeap := List (List (V × V))
+
+def dictSet (kvs : List (V × V)) (k v : V) : List (V × V) :=
+  match kvs with
+  | [] => [(k, v)]
+  | (k', v') :: r => if k' = k then (k', v) :: r else (k', v') :: dictSet r k v
+
+def dictGet (kvs : List (V × V)) (k : V) : V :=
+  match kvs with
+  | [] => .undef
+  | (k', v') :: r => if k' = k then v' else dictGet r k
+
+def dheapSet (d : DHeap) (r : Nat) (k v : V) : DHeap :=
+  d.set r (dictSet (d.getD r []) k v)
+
+def dlitVals (kvs : List (Int × Int)) : List (V × V) := kvs.map (fun p => (V.int p.1, V.int p.2))
+
+namespace Ref
+
+structure S where
+  frames : List (Frame RV)
+  dheap : DHeap
+deriving Repr
+
+def semToRes (a b : V) : Sem → Res RV
+  | .err => .err
+  | .unm => .unm
+  | .val v => .ok (.val v)
+  | .view .l sel => .ok (.val (applySel sel a))
+  | .view .r sel => .ok (.val (applySel sel b))
+
+def evalVar (s : S) (q : QName) : Res RV × S :=
+  match lookup s.frames q with
+  | some v => (.ok v, s)
+  | none =>
+    if q.base = xBase then (.ok (.val (.sym q)), s)
+    else (.ok (.val (.sym q)), { s with frames := assign s.frames q (.val (.sym q)) })
+
+def applyOp1 (o : MOp) (s : S) : RV → Res RV × S
+  | .val a => (semToRes a a (monadSem o a), s)
+  | .dict r => (match o with | .size => .ok (.val (.int (s.dheap.getD r []).length)) | _ => .unm, s)
+  | .fn _ => (.unm, s)
+
+def applyOp2 (o : DOp) (s : S) : RV → RV → Res RV × S
+  | .val a, .val b => (semToRes a b (dyadSem o a b), s)
+  | .dict r, .val b =>
+    (match o, b with
+     | .join, .ints [k, v] => (.ok (.dict r), { s with dheap := dheapSet s.dheap r (.int k) (.int v) })
+     | .find, .int k => (.ok (.val (dictGet (s.dheap.getD r []) (.int k))), s)
+     | _, _ => (.unm, s))
+  | _, _ => (.unm, s)
+
+/-- one level of the interpreter; `callee` evaluates function bodies -/
+def evalWith (callee : Expr V → S → Res RV × S) : Expr V → S → Res RV × S
+  | .lit v, s => (.ok (.val v), s)
+  | .dlit kvs, s => (.ok (.dict s.dheap.length), { s with dheap := s.dheap ++ [dlitVals kvs] })
+  | .var q, s => evalVar s q
+  | .fn b, s => (.ok (.fn b), s)
+  | .assign q e, s =>
+    (match evalWith callee e s with
+     | (.ok v, s1) => (.ok v, { s1 with frames := assign s1.frames q v })
+     | r => r)
+  | .seq a b, s =>
+    (match evalWith callee a s with
+     | (.ok _, s1) => evalWith callee b s1
+     | r => r)
+  | .op1 o e, s =>
+    (match evalWith callee e s with
+     | (.ok v, s1) => applyOp1 o s1 v
+     | r => r)
+  | .op2 o a b, s =>
+    (match evalWith callee b s with          -- `_y = self.eval(fa[1])` first
+     | (.ok vb, s1) =>
+       (match evalWith callee a s1 with
+        | (.ok va, s2) => applyOp2 o s2 va vb
+        | r => r)
+     | r => r)
+  | .call f arg, s =>
+    (match lookup s.frames f with
+     | some (.fn body) =>
+       (match evalWith callee arg s with
+        | (.ok av, s1) =>
+          let (r, s2) := callee body { s1 with frames := ⟨none, [(xName, av)]⟩ :: s1.frames }
+          (r, { s2 with frames := s2.frames.tail })
+        | r => r)
+     | _ => (.unm, s))
+
+def evalN : Nat → Expr V → S → Res RV × S
+  | 0 => fun _ s => (.unm, s)
+  | n + 1 => evalWith (evalN n)
+
+/-- call depth of the modelled grammar -/
+def depth : Nat := 4
 
 structure State where
-  unit : Unit := ()
+  s : S
+  module : Option Nat
+deriving Repr
 
-def init : State := {}
+def init : State := ⟨⟨[⟨none, []⟩], []⟩, none⟩
 
-def handle (s : State) (_ws : List String) : State × String := (s, "bad-op")
+/-- `.module(arg)` at run time: the argument is evaluated in the caller's frame, the call
+    frame {x: arg} is pushed and (because start_module raises the floor) never popped -/
+def runModule (s : S) : Option QName → Res RV × S
+  | some q =>
+    (match evalVar s q with
+     | (.ok (.val (.sym n)), s1) =>
+       (.ok (.val .undef),
+        { s1 with frames := ⟨some n, []⟩ :: ⟨none, [(xName, .val (.sym n))]⟩ :: s1.frames })
+     | (_, s1) => (.unm, s1))
+  | none => (.ok (.val .undef), { s with frames := ⟨none, [(xName, .val (.int 0))]⟩ :: s.frames })
+
+def step (parse : Parse) (st : State) (t : Text) : State × Res RV :=
+  let (tree, m') := parse t st.module
+  match tree with
+  | .expr e => let (r, s') := evalN depth e st.s; (⟨s', m'⟩, r)
+  | .module arg => let (r, s') := runModule st.s arg; (⟨s', m'⟩, r)
+
+def run (parse : Parse) : State → List Text → State × List (Res RV)
+  | st, [] => (st, [])
+  | st, t :: ts =>
+    let (st1, r) := step parse st t
+    let (st2, rs) := run parse st1 ts
+    (st2, r :: rs)
+
+end Ref
+
+/-! ## `Interp`: heap, views, caches -/
+
+inductive HLit where
+  | imm (v : V)
+  | ref (a : Nat)         -- array literal created by the parser, stored inside the tree
+deriving DecidableEq, Repr
+
+inductive HV where
+  | imm (v : V)
+  | arr (a : Nat)
+  | dict (r : Nat)
+  | fn (body : Expr HLit)
+deriving DecidableEq, Repr
+
+inductive Cell where
+  | base (v : V)
+  | view (of : Nat) (sel : Sel)
+deriving DecidableEq, Repr
+
+/-- the heap, newest cell first; the address of a cell is its distance from the end, so
+    allocation is `cons` and a view can only refer to an older cell -/
+abbrev Heap := List Cell
+
+def derefAt : Heap → Nat → V
+  | [], _ => .undef
+  | c :: rest, a =>
+    if a = rest.length then
+      (match c with
+       | .base v => v
+       | .view o sel => applySel sel (derefAt rest o))
+    else derefAt rest a
+
+def isArr : V → Bool
+  | .ints _ => true
+  | .mat _ => true
+  | _ => false
+
+def litInt : V → Option Int
+  | .int n => some n
+  | _ => none
+
+def hlitInt : HLit → Option Int
+  | .imm v => litInt v
+  | .ref _ => none
+
+namespace Interp
+
+structure S where
+  frames : List (Frame HV)
+  heap : Heap
+  dheap : DHeap
+  memo : List (Expr HLit × Option CExpr)                 -- `x._compiled` on tree nodes
+  ccache : List ((Text × Option Nat) × Option CExpr)     -- `_compiled_cache`
+deriving Repr
+
+/-- the data value a binding denotes (dictionaries and functions are not data) -/
+def toV (h : Heap) : HV → Option V
+  | .imm v => some v
+  | .arr a => some (derefAt h a)
+  | _ => none
+
+/-- a fresh object: arrays get a new base cell -/
+def allocV (s : S) (v : V) : HV × S :=
+  if isArr v then (.arr s.heap.length, { s with heap := .base v :: s.heap }) else (.imm v, s)
+
+def operand (s : Side) (a b : HV) : HV := match s with | .l => a | .r => b
+
+def place (s : S) (a b : HV) (va vb : V) : Sem → Res HV × S
+  | .err => (.err, s)
+  | .unm => (.unm, s)
+  | .val v => let (hv, s') := allocV s v; (.ok hv, s')
+  | .view side sel =>
+    (match operand side a b with
+     | .arr p => (.ok (.arr s.heap.length), { s with heap := .view p sel :: s.heap })
+     | _ => let (hv, s') := allocV s (applySel sel (match side with | .l => va | .r => vb)); (.ok hv, s'))
+
+def env (s : S) (q : QName) : Option V :=
+  match lookup s.frames q with
+  | some hv => toV s.heap hv
+  | none => none
+
+def evalVar (s : S) (q : QName) : Res HV × S :=
+  match lookup s.frames q with
+  | some v => (.ok v, s)
+  | none =>
+    if q.base = xBase then (.ok (.imm (.sym q)), s)
+    else (.ok (.imm (.sym q)), { s with frames := assign s.frames q (.imm (.sym q)) })
+
+/-- `compile_expr` as the configuration does it: with `guardArgs` a function of the tree,
+    otherwise (pinned) it also demands admissible operands *now* -/
+def compileNow (cfg : Cfg) (s : S) (e : Expr HLit) : Option CExpr :=
+  match compileWith hlitInt e with
+  | some c => if cfg.guardArgs || varsAdmissible (env s) c then some c else none
+  | none => none
+
+/-- `getattr(x, '_compiled', None)` … `x._compiled = compiled` -/
+def memoCode (cfg : Cfg) (s : S) (e : Expr HLit) : Option CExpr × S :=
+  if cfg.caches then
+    match s.memo.lookup e with
+    | some c => (c, s)
+    | none => let c := compileNow cfg s e; (c, { s with memo := (e, c) :: s.memo })
+  else (compileNow cfg s e, s)
+
+/-- `args = compiled_args(...); return fn(*args)` inside `try` -/
+def runCode (cfg : Cfg) (s : S) (c : CExpr) : Option V :=
+  if cfg.guardArgs && !varsAdmissible (env s) c then none else pyEval (env s) c
+
+def tryCompiled (cfg : Cfg) (s : S) (e : Expr HLit) : Option (HV × S) :=
+  let (c, s1) := memoCode cfg s e
+  match c with
+  | some code =>
+    (match runCode cfg s1 code with
+     | some v => some (allocV s1 v)
+     | none => none)
+  | none => none
+
+def memoOnly (cfg : Cfg) (s : S) (e : Expr HLit) : S := (memoCode cfg s e).2
+
+def applyOp1 (o : MOp) (s : S) (a : HV) : Res HV × S :=
+  match a with
+  | .dict r => (match o with | .size => .ok (.imm (.int (s.dheap.getD r []).length)) | _ => .unm, s)
+  | .fn _ => (.unm, s)
+  | _ =>
+    match toV s.heap a with
+    | some va => place s a a va va (monadSem o va)
+    | none => (.unm, s)
+
+/-- mutant only: write the amended array into the cell of the argument -/
+def heapWrite : Heap → Nat → V → Heap
+  | [], _, _ => []
+  | c :: rest, a, v => if a = rest.length then .base v :: rest else c :: heapWrite rest a v
+
+def applyOp2 (cfg : Cfg) (o : DOp) (s : S) (a b : HV) : Res HV × S :=
+  match a, b with
+  | .dict r, _ =>
+    (match o, toV s.heap b with
+     | .join, some (.ints [k, v]) => (.ok (.dict r), { s with dheap := dheapSet s.dheap r (.int k) (.int v) })
+     | .find, some (.int k) => (.ok (.imm (dictGet (s.dheap.getD r []) (.int k))), s)
+     | _, _ => (.unm, s))
+  | _, _ =>
+    match toV s.heap a, toV s.heap b with
+    | some va, some vb =>
+      if cfg.amendInPlace && o == .amend then
+        (match a, dyadSem o va vb with
+         | .arr p, .val v => (.ok (.arr p), { s with heap := heapWrite s.heap p v })
+         | _, sem => place s a b va vb sem)
+      else place s a b va vb (dyadSem o va vb)
+    | _, _ => (.unm, s)
+
+def evalWith (cfg : Cfg) (callee : Expr HLit → S → Res HV × S) : Expr HLit → S → Res HV × S
+  | .lit (.imm v), s => (.ok (.imm v), s)
+  | .lit (.ref a), s => (.ok (.arr a), s)
+  | .dlit kvs, s => (.ok (.dict s.dheap.length), { s with dheap := s.dheap ++ [dlitVals kvs] })
+  | .var q, s => evalVar s q
+  | .fn b, s => (.ok (.fn b), s)
+  | .assign q e, s =>
+    (match evalWith cfg callee e s with
+     | (.ok v, s1) =>
+       (.ok v, { s1 with frames := assign s1.frames q v
+                       , ccache := if cfg.clearOnAssign then [] else s1.ccache })
+     | r => r)
+  | .seq a b, s =>
+    (match evalWith cfg callee a s with
+     | (.ok _, s1) => evalWith cfg callee b s1
+     | r => r)
+  | .op1 o e, s =>
+    (match tryCompiled cfg s (.op1 o e) with
+     | some (v, s1) => (.ok v, s1)
+     | none =>
+       (match evalWith cfg callee e (memoOnly cfg s (.op1 o e)) with
+        | (.ok v, s1) => applyOp1 o s1 v
+        | r => r))
+  | .op2 o a b, s =>
+    (match tryCompiled cfg s (.op2 o a b) with
+     | some (v, s1) => (.ok v, s1)
+     | none =>
+       (match evalWith cfg callee b (memoOnly cfg s (.op2 o a b)) with
+        | (.ok vb, s1) =>
+          (match evalWith cfg callee a s1 with
+           | (.ok va, s2) => applyOp2 cfg o s2 va vb
+           | r => r)
+        | r => r))
+  | .call f arg, s =>
+    (match lookup s.frames f with
+     | some (.fn body) =>
+       (match evalWith cfg callee arg s with
+        | (.ok av, s1) =>
+          let (r, s2) := callee body { s1 with frames := ⟨none, [(xName, av)]⟩ :: s1.frames }
+          (r, { s2 with frames := s2.frames.tail })
+        | r => r)
+     | _ => (.unm, s))
+
+def evalN (cfg : Cfg) : Nat → Expr HLit → S → Res HV × S
+  | 0 => fun _ s => (.unm, s)
+  | n + 1 => evalWith cfg (evalN cfg n)
+
+/-- the parser stores array literals as arrays inside the tree -/
+def internE : Expr V → Heap → Expr HLit × Heap
+  | .lit v, h => if isArr v then (.lit (.ref h.length), .base v :: h) else (.lit (.imm v), h)
+  | .dlit kvs, h => (.dlit kvs, h)
+  | .var q, h => (.var q, h)
+  | .fn b, h => let (b', h1) := internE b h; (.fn b', h1)
+  | .assign q e, h => let (e', h1) := internE e h; (.assign q e', h1)
+  | .seq a b, h => let (a', h1) := internE a h; let (b', h2) := internE b h1; (.seq a' b', h2)
+  | .op1 o e, h => let (e', h1) := internE e h; (.op1 o e', h1)
+  | .op2 o a b, h => let (a', h1) := internE a h; let (b', h2) := internE b h1; (.op2 o a' b', h2)
+  | .call f a, h => let (a', h1) := internE a h; (.call f a', h1)
+
+def internS : Text → Heap → Stmt HLit × Heap
+  | .expr e, h => let (e', h1) := internE e h; (.expr e', h1)
+  | .module a, h => (.module a, h)
+
+structure State where
+  s : S
+  module : Option Nat                                               -- `_module`
+  pcache : List ((Text × Option Nat) × (Stmt HLit × Option Nat))    -- `_parse_cache`
+deriving Repr
+
+def init : State := ⟨⟨[⟨none, []⟩], [], [], [], []⟩, none, []⟩
+
+def runModule (s : S) : Option QName → Res HV × S
+  | some q =>
+    (match evalVar s q with
+     | (.ok (.imm (.sym n)), s1) =>
+       (.ok (.imm .undef),
+        { s1 with frames := ⟨some n, []⟩ :: ⟨none, [(xName, .imm (.sym n))]⟩ :: s1.frames })
+     | (_, s1) => (.unm, s1))
+  | none => (.ok (.imm .undef), { s with frames := ⟨none, [(xName, .imm (.int 0))]⟩ :: s.frames })
+
+/-- `cache_key = (x, self._module)` -/
+def key (cfg : Cfg) (st : State) (t : Text) : Text × Option Nat :=
+  (t, if cfg.keyModule then st.module else none)
+
+/-- parse-cache lookup / fill: the tree, the parse-time module afterwards, the new state -/
+def fetch (cfg : Cfg) (parse : Parse) (st : State) (t : Text) : Stmt HLit × State :=
+  let miss : Stmt HLit × State :=
+    let (tree, m') := parse t st.module
+    let (itree, h') := internS tree st.s.heap
+    let s' := { st.s with heap := h' }
+    (itree, ⟨s', m', if cfg.caches then (key cfg st t, (itree, m')) :: st.pcache else st.pcache⟩)
+  if cfg.caches then
+    match st.pcache.lookup (key cfg st t) with
+    | some (itree, m') => (itree, { st with module := if cfg.replayModule then m' else st.module })
+    | none => miss
+  else miss
+
+/-- `__call__`'s own compiled path for a single expression, under `_compiled_cache` -/
+def topCompiled (cfg : Cfg) (k : Text × Option Nat) (s : S) (e : Expr HLit) : Option (HV × S) × S :=
+  let (c, s1) : Option CExpr × S :=
+    if cfg.caches then
+      match s.ccache.lookup k with
+      | some c => (c, s)
+      | none => let c := compileNow cfg s e; (c, { s with ccache := (k, c) :: s.ccache })
+    else (compileNow cfg s e, s)
+  match c with
+  | some code =>
+    (match runCode cfg s1 code with
+     | some v => (some (allocV s1 v), s1)
+     | none => (none, s1))
+  | none => (none, s1)
+
+def depth : Nat := 4
+
+def step (cfg : Cfg) (parse : Parse) (st : State) (t : Text) : State × Res HV :=
+  let k := key cfg st t
+  let (tree, st1) := fetch cfg parse st t
+  match tree with
+  | .expr e =>
+    (match topCompiled cfg k st1.s e with
+     | (some (v, s'), _) => ({ st1 with s := s' }, .ok v)
+     | (none, s1) => let (r, s') := evalN cfg depth e s1; ({ st1 with s := s' }, r))
+  | .module arg => let (r, s') := runModule st1.s arg; ({ st1 with s := s' }, r)
+
+def run (cfg : Cfg) (parse : Parse) : State → List Text → State × List (Res HV)
+  | st, [] => (st, [])
+  | st, t :: ts =>
+    let (st1, r) := step cfg parse st t
+    let (st2, rs) := run cfg parse st1 ts
+    (st2, r :: rs)
+
+/-! ### abstraction to `Ref` -/
+
+def derefE (h : Heap) : Expr HLit → Expr V
+  | .lit (.imm v) => .lit v
+  | .lit (.ref a) => .lit (derefAt h a)
+  | .dlit kvs => .dlit kvs
+  | .var q => .var q
+  | .fn b => .fn (derefE h b)
+  | .assign q e => .assign q (derefE h e)
+  | .seq a b => .seq (derefE h a) (derefE h b)
+  | .op1 o e => .op1 o (derefE h e)
+  | .op2 o a b => .op2 o (derefE h a) (derefE h b)
+  | .call f a => .call f (derefE h a)
+
+def derefS (h : Heap) : Stmt HLit → Text
+  | .expr e => .expr (derefE h e)
+  | .module a => .module a
+
+def absHV (h : Heap) : HV → RV
+  | .imm v => .val v
+  | .arr a => .val (derefAt h a)
+  | .dict r => .dict r
+  | .fn b => .fn (derefE h b)
+
+def absRes (h : Heap) : Res HV → Res RV
+  | .ok v => .ok (absHV h v)
+  | .err => .err
+  | .unm => .unm
+
+def absS (s : S) : Ref.S := ⟨mapFrames (absHV s.heap) s.frames, s.dheap⟩
+
+def abs (st : State) : Ref.State := ⟨absS st.s, st.module⟩
+
+/-- a fresh interpreter loaded with a copy of the variable state of `st`: every array is
+    copied into a new heap, no cache survives -/
+def loadHV : RV → Heap → HV × Heap
+  | .val v, h => if isArr v then (.arr h.length, .base v :: h) else (.imm v, h)
+  | .dict r, h => (.dict r, h)
+  | .fn b, h => let (b', h1) := internE b h; (.fn b', h1)
+
+def loadBinds : List (QName × RV) → Heap → List (QName × HV) × Heap
+  | [], h => ([], h)
+  | (q, v) :: r, h =>
+    let (v', h1) := loadHV v h
+    let (r', h2) := loadBinds r h1
+    ((q, v') :: r', h2)
+
+def loadFrames : List (Frame RV) → Heap → List (Frame HV) × Heap
+  | [], h => ([], h)
+  | f :: fs, h =>
+    let (b', h1) := loadBinds f.binds h
+    let (fs', h2) := loadFrames fs h1
+    (⟨f.mod, b'⟩ :: fs', h2)
+
+def load (r : Ref.State) : State :=
+  let (fs, h) := loadFrames r.s.frames []
+  ⟨⟨fs, h, r.s.dheap, [], []⟩, r.module, []⟩
+
+end Interp
+
+/-! ## observation: what the harness compares -/
+
+/-- `KlongContext.__iter__`: top frame first, first occurrence of a name wins -/
+def snapshot {β : Type} (fs : List (Frame β)) : List (QName × β) :=
+  (fs.flatMap (·.binds)).foldl (fun acc p => if acc.any (fun q => q.1 = p.1) then acc else acc ++ [p]) []
+
+/-! ## driver -/
+
+def showQ (q : QName) : String :=
+  match q.mod with
+  | some m => s!"{q.base}~{m}"
+  | none => s!"{q.base}"
+
+def showInts (xs : List Int) : String := "L[" ++ ",".intercalate (xs.map fun n => s!"i:{n}") ++ "]"
+
+def showV : V → String
+  | .int n => s!"i:{n}"
+  | .chr c => s!"c:{c}"
+  | .str cs => "s:" ++ ".".intercalate (cs.map toString)
+  | .sym q => "y:" ++ showQ q
+  | .ints xs => showInts xs
+  | .mat rows => "L[" ++ ",".intercalate (rows.map showInts) ++ "]"
+  | .undef => "U"
+
+def showDict (kvs : List (V × V)) : String :=
+  "D[" ++ ";".intercalate (kvs.map fun p => showV p.1 ++ "=" ++ showV p.2) ++ "]"
+
+def showRV (d : DHeap) : RV → String
+  | .val v => showV v
+  | .dict r => showDict (d.getD r [])
+  | .fn _ => "X"
+
+def showRes (d : DHeap) : Res RV → String
+  | .ok v => "ok:" ++ showRV d v
+  | .err => "err"
+  | .unm => "unm"
+
+def qLe (a b : QName) : Bool :=
+  a.base < b.base || (a.base == b.base && (match a.mod, b.mod with
+    | none, _ => true
+    | some _, none => false
+    | some x, some y => x ≤ y))
+
+def insertSorted (p : QName × String) : List (QName × String) → List (QName × String)
+  | [] => [p]
+  | q :: r => if qLe p.1 q.1 then p :: q :: r else q :: insertSorted p r
+
+def showSnapshot (s : Ref.S) : String :=
+  let items := (snapshot s.frames).map fun p => (p.1, showRV s.dheap p.2)
+  let sorted := items.foldl (fun acc p => insertSorted p acc) []
+  "|".intercalate (sorted.map fun p => showQ p.1 ++ "=" ++ p.2)
+
+def showMod : Option Nat → String
+  | some m => toString m
+  | none => "-"
+
+/-- classification of a statement's result for the `np.shares_memory` check: `fresh` — a base
+    cell allocated by this statement; `alias` — an older cell or a view; `imm` — not an array -/
+def resultClass (oldLen : Nat) (h : Heap) : Res HV → String
+  | .ok (.arr a) =>
+    if a < oldLen then "alias"
+    else (match h.drop (h.length - 1 - a) with
+          | .base _ :: _ => "fresh"
+          | _ => "alias")
+  | _ => "imm"
+
+/-! ### request parsing (driver only) -/
+
+def parseQName (s : String) : Option QName :=
+  match s.splitOn "~" with
+  | [b] => b.toNat?.map (⟨·, none⟩)
+  | [b, m] => match b.toNat?, m.toNat? with
+    | some x, some y => some ⟨x, some y⟩
+    | _, _ => none
+  | _ => none
+
+def parseInts (s : String) : Option (List Int) := (splitOnChar s ',').mapM String.toInt?
+def parseNats (s : String) : Option (List Nat) := (splitOnChar s '.').mapM String.toNat?
+
+def parseAOp : String → Option AOp
+  | "plus" => some .plus | "times" => some .times | "minus" => some .minus
+  | "max" => some .max | "min" => some .min | _ => none
+
+def parseMOp (s : String) : Option MOp :=
+  match s.splitOn ":" with
+  | ["rev"] => some .rev
+  | ["size"] => some .size
+  | ["over", o] => (parseAOp o).map .over
+  | ["scan", o] => (parseAOp o).map .scan
+  | _ => none
+
+def parseDOp (s : String) : Option DOp :=
+  match s.splitOn ":" with
+  | ["take"] => some .take | ["drop"] => some .drop | ["index"] => some .index
+  | ["amend"] => some .amend | ["amendD"] => some .amendD | ["join"] => some .join
+  | ["find"] => some .find
+  | ["arith", o] => (parseAOp o).map .arith
+  | _ => none
+
+/-- prefix notation:  I n | S c.c | E (empty string) | L n,n | M n,n;n,n | D k:v,k:v | D0 |
+    V q | F e | A q e | Q e e | 1 op e | 2 op e e | C q e -/
+partial def parseExpr : List String → Option (Expr V × List String)
+  | "I" :: n :: r => n.toInt?.map fun k => (.lit (.int k), r)
+  | "E" :: r => some (.lit (.str []), r)
+  | "S" :: cs :: r => (parseNats cs).map fun k => (.lit (.str k), r)
+  | "L0" :: r => some (.lit (.ints []), r)
+  | "L" :: ns :: r => (parseInts ns).map fun k => (.lit (.ints k), r)
+  | "M" :: rows :: r => ((splitOnChar rows ';').mapM parseInts).map fun k => (.lit (.mat k), r)
+  | "D0" :: r => some (.dlit [], r)
+  | "D" :: kvs :: r =>
+    ((splitOnChar kvs ',').mapM fun (kv : String) => match kv.splitOn ":" with
+      | [k, v] => (match String.toInt? k, String.toInt? v with | some a, some b => some (a, b) | _, _ => none)
+      | _ => none).map fun k => (.dlit k, r)
+  | "V" :: q :: r => (parseQName q).map fun k => (.var k, r)
+  | "F" :: r => (parseExpr r).map fun (b, r') => (.fn b, r')
+  | "A" :: q :: r => match parseQName q, parseExpr r with
+    | some k, some (e, r') => some (.assign k e, r')
+    | _, _ => none
+  | "Q" :: r => match parseExpr r with
+    | some (a, r1) => (parseExpr r1).map fun (b, r2) => (.seq a b, r2)
+    | none => none
+  | "1" :: o :: r => match parseMOp o, parseExpr r with
+    | some op, some (e, r') => some (.op1 op e, r')
+    | _, _ => none
+  | "2" :: o :: r => match parseDOp o, parseExpr r with
+    | some op, some (a, r1) => (parseExpr r1).map fun (b, r2) => (.op2 op a b, r2)
+    | _, _ => none
+  | "C" :: q :: r => match parseQName q, parseExpr r with
+    | some k, some (e, r') => some (.call k e, r')
+    | _, _ => none
+  | _ => none
+
+def parseStmt : List String → Option Text
+  | ["MOD0"] => some (.module none)
+  | ["MOD", q] => (parseQName q).map fun k => .module (some k)
+  | ws => match parseExpr ws with
+    | some (e, []) => some (.expr e)
+    | _ => none
+
+structure DState where
+  h : Interp.State
+  r : Ref.State
+
+def init : DState := ⟨Interp.init, Ref.init⟩
+
+/-- `reset` | `stmt <prefix tokens>`: the repaired heap machine and `Ref` in lockstep -/
+def handle (d : DState) (ws : List String) : DState × String :=
+  match ws with
+  | ["reset"] => (init, "ok")
+  | "stmt" :: rest =>
+    (match parseStmt rest with
+     | some t =>
+       let oldLen := d.h.s.heap.length
+       let (h', ro) := Interp.step Cfg.repaired parseQ d.h t
+       let (r', rr) := Ref.step parseQ d.r t
+       let hs := Interp.absS h'.s
+       let outH := showRes h'.s.dheap (Interp.absRes h'.s.heap ro)
+       let outR := showRes r'.s.dheap rr
+       let varsH := showSnapshot hs
+       let varsR := showSnapshot r'.s
+       let agree := if outH == outR && varsH == varsR && h'.module == r'.module then "1" else "0"
+       (⟨h', r'⟩,
+        s!"out={outH} vars={varsH} mod={showMod h'.module} cls={resultClass oldLen h'.s.heap ro} agree={agree}")
+     | none => (d, "bad-op"))
+  | _ => (d, "bad-op")
 
 end Klong.C04
